@@ -36,9 +36,20 @@ def hcallOf (m : String) (args : List String) : Option Call :=
   | "transferShares", some [t, s] => some (.transferShares t s)
   | "transferFromShares", some [f, t, s] => some (.transferFromShares f t s)
   | "cancelSendToExternal", some [i] => some (.cancelSend i)
-  | "increaseBridgeFee", some [i, f] => some (.increaseFee i f)
+  | "increaseBridgeFee", some [i, f, _] => some (.increaseFee i f)
+  | "crossChain", some [a, f, _] => some (.crossChain a f 0)
   | "view", _ => match args with | [n] => some (.view n) | _ => none
   | _, _ => none
+
+/-- msg.value of a history call (last argument of the payable methods) -/
+def hvalueOf (m : String) (args : List String) : Nat :=
+  match m, nats args with
+  | "increaseBridgeFee", some [_, _, v] => v
+  | "crossChain", some [_, _, v] => v
+  | _, _ => 0
+
+/-- account number of the precompile account: 6 = staking (…1003), 7 = crosschain (…1004) -/
+def selfOf (addr : String) : Addr := if addr.endsWith "1003" then 6 else 7
 
 def insertSorted (e : PoolTx) : List PoolTx → List PoolTx
   | [] => [e]
@@ -62,14 +73,15 @@ def statusOf (call : Call) (r : Res) : String :=
   | .error .allowance => if isShareMove call then "ran:err:allowance" else "ran:err"
   | .error .shares => if isShareMove call then "ran:err:shares" else "ran:err"
   | .error .method => "ran:err"
+  | .error .value => "ran:err"
 
-def observe (c : Addr) (call : Call) (w : World) : String :=
+def observe (c self : Addr) (call : Call) (w : World) : String :=
   match call with
   | .approve sp _ => s!"al={w.allow c sp} sa={w.shares c} sb={w.shares sp}"
   | .transferShares t _ => s!"al={w.allow c t} sa={w.shares c} sb={w.shares t}"
   | .transferFromShares f t _ => s!"al={w.allow f c} sa={w.shares f} sb={w.shares t}"
   | .delegate _ | .undelegate _ | .withdraw => s!"sa={w.shares c}"
-  | .cancelSend _ | .increaseFee _ _ => s!"pool={showPool w.pool}"
+  | .cancelSend _ | .increaseFee _ _ | .crossChain _ _ _ => s!"pool={showPool w.pool} pb={w.bal self}"
   | _ => "-"
 
 def entriesOf (ents : String) : List (List Char) :=
@@ -90,6 +102,10 @@ def step (st : World) (line : String) : World × String :=
     match nats [a, b, n] with
     | some [a, b, n] => ({ st with allow := upd2 st.allow a b n }, "ok")
     | _ => (st, "bad-op")
+  | ["set", "nextid", n] =>
+    match nats [n] with
+    | some [n] => ({ st with nextId := n }, "ok")
+    | _ => (st, "bad-op")
   | ["set", "pool", i, s, n] =>
     match nats [i, s, n] with
     | some [i, s, n] => ({ st with pool := ⟨i, s, n⟩ :: st.pool }, "ok")
@@ -99,7 +115,7 @@ def step (st : World) (line : String) : World × String :=
     | some k =>
       match readonlyFlag k with
       | some ro =>
-        let r := runGen (entriesOf ents) ro addr.toList mid.toList ⟨1, 9⟩ (callOf m) w0
+        let r := runGen (entriesOf ents) ro addr.toList mid.toList ⟨1, 9, selfOf addr, 0⟩ (callOf m) w0
         match r.out with
         | .error .writeProtection => (st, "blocked:readonly")
         | .error .disabled => (st, "blocked:disabled")
@@ -113,9 +129,9 @@ def step (st : World) (line : String) : World × String :=
     | some k, some [c, o], some call =>
       match readonlyFlag k with
       | some ro =>
-        let r := runGen (entriesOf ents) ro addr.toList mid.toList ⟨c, o⟩ call st
+        let r := runGen (entriesOf ents) ro addr.toList mid.toList ⟨c, o, selfOf addr, hvalueOf m args⟩ call st
         let st' := match r.out with | .ok w' => w' | .error _ => st
-        (st', statusOf call r ++ " " ++ observe c call st')
+        (st', statusOf call r ++ " " ++ observe c (selfOf addr) call st')
       | none => (st, "no-readonly-fact")
     | _, _, _ => (st, "bad-op")
   | _ => (st, "bad-op")
